@@ -272,7 +272,39 @@ def expected(kind, own, parent):
     return None
 
 
+def check_prefix_verbatim(ctx, an, model):
+    """The prefix a schema is given is the prefix its variables carry: Schema.__init__ stores the `env` argument as it is
+    (True stands for the empty prefix) -- a trimmed, re-cased or otherwise edited name binds the fields to variables the naming
+    rule does not produce."""
+    init = model.method("Schema", "__init__")
+    g = an.cfg(init)
+    if "env" not in init.positional_params and "env" not in [a.arg for a in init.params]:
+        return
+    n_stores = 0
+    for n in g.nodes:
+        if n.kind == "assign" and isinstance(n.ast, ast.Assign) and any(
+                isinstance(t, ast.Attribute) and t.attr == "_env_prefix" and isinstance(t.value, ast.Name) and t.value.id == init.self_name for t in n.ast.targets):
+            n_stores += 1
+            bad = None
+            for k, pl in value_sources(init, n.ast.value, n):
+                if k == "param" and pl == "env":
+                    continue
+                if k == "expr" and isinstance(pl, ast.Constant) and pl.value in ("", None, False):
+                    continue
+                bad = pl if isinstance(pl, ast.AST) else None
+                bad_txt = ast.unparse(pl)[:50] if isinstance(pl, ast.AST) else str(pl)
+                break
+            else:
+                bad_txt = None
+            ctx.ob("name.prefix-verbatim", init, n.ast, bad_txt is None,
+                   "the prefix is the env argument itself ('' for True)" if bad_txt is None else
+                   "the schema's prefix is %s, not the env argument as given: a named prefix is edited before it is used, the variables the "
+                   "fields are bound to are not <prefix>_<KEY>" % bad_txt, node=n)
+    ctx.need(n_stores >= 1, "Schema.__init__ no longer stores the environment prefix")
+
+
 def check_names(ctx, an, model):
+    check_prefix_verbatim(ctx, an, model)
     for kind, cname, attr in (("field", "Field", "env"), ("schema", "Schema", "_env_prefix")):
         fn = model.method(cname, "__setkey__")
         table = derive_table(an, fn, attr)
